@@ -530,6 +530,9 @@ func genCliResp(p *prng, thorough bool, w *bufio.Writer) {
 		s.read(t1, t2)
 		s.finale("close")
 	}
+	// request header blocks longer than the server's MAX_FRAME_SIZE (F33): the request on the wire, reassembled from
+	// HEADERS + CONTINUATION, is the request given
+	cliBigBlocks(p, false, w)
 }
 
 // ---------------------------------------------------------------- C07: uploads against window schedules
@@ -1158,6 +1161,8 @@ func genCliSettings(p *prng, thorough bool, w *bufio.Writer) {
 			s.finale("close")
 		}
 	}
+	// request header blocks longer than the server's MAX_FRAME_SIZE (F33)
+	cliBigBlocks(p, thorough, w)
 }
 
 // C20c: response header lists over a vocabulary of valid and invalid shapes.
@@ -1290,6 +1295,8 @@ func genCliRace(p *prng, thorough bool, w *bufio.Writer) {
 		s.op("settle")
 		s.read(s.tags...)
 	}
+	// long request header blocks written while other goroutines write too (F33)
+	cliBigRace(p, w)
 }
 
 func genCliSmoke(p *prng, thorough bool, w *bufio.Writer) {
